@@ -16,7 +16,7 @@
 #include <sys/stat.h>
 
 // ------------------------------------------------------------------ ledger + fault oracle
-#define LEDGER_BITS 20
+#define LEDGER_BITS 17
 #define LEDGER_SIZE (1u << LEDGER_BITS)
 #define NFRAMES 10
 typedef struct { void* ptr; size_t size; unsigned long seq; void* site[NFRAMES]; int nsite; } LENT;
@@ -25,6 +25,25 @@ static unsigned long ledger_live, ledger_bytes, alloc_seq;
 static int g_armed; static long g_count, g_fail_k, g_mode, g_injected;
 static void* g_site[NFRAMES]; static int g_nsite;
 static uintptr_t g_base;
+
+// Frame-pointer walk (everything is built with -fno-omit-frame-pointer): much cheaper than backtrace(),
+// which matters because every allocation records its site for the leak report.
+static uintptr_t g_stack_hi;
+static __attribute__((noinline)) int fp_backtrace(void** out, int max)
+{
+  void** fp = (void**) __builtin_frame_address(0);
+  int n = 0;
+  while (fp != NULL && n < max)
+  {
+    void* ret = fp[1];
+    if (ret == NULL) break;
+    out[n++] = ret;
+    void** next = (void**) fp[0];
+    if (next <= fp || (uintptr_t) next >= g_stack_hi || (uintptr_t) next - (uintptr_t) fp > (1u << 22)) break;
+    fp = next;
+  }
+  return n;
+}
 
 static int phdr_cb(struct dl_phdr_info* info, size_t size, void* data)
 {
@@ -39,7 +58,7 @@ static void ledger_add(void* p, size_t size)
   unsigned i = hptr(p);
   while (ledger[i].ptr != NULL && ledger[i].ptr != (void*) 1) i = (i + 1) & (LEDGER_SIZE - 1);
   ledger[i].ptr = p; ledger[i].size = size; ledger[i].seq = ++alloc_seq;
-  ledger[i].nsite = backtrace(ledger[i].site, NFRAMES);
+  ledger[i].nsite = fp_backtrace(ledger[i].site, NFRAMES);
   ledger_live++; ledger_bytes += size;
 }
 static int ledger_del(void* p)
@@ -60,7 +79,7 @@ static int should_fail(size_t bytes)
   g_count++;
   if (g_fail_k > 0 && ((g_mode == 1 && g_count == g_fail_k) || (g_mode == 2 && g_count >= g_fail_k)))
   {
-    if (g_injected == 0) g_nsite = backtrace(g_site, NFRAMES);
+    if (g_injected == 0) g_nsite = fp_backtrace(g_site, NFRAMES);
     g_injected++;
     return 1;
   }
@@ -405,7 +424,7 @@ int main(int argc, char** argv)
   setvbuf(stdout, NULL, _IOLBF, 0);
   ledger = (LENT*) calloc(LEDGER_SIZE, sizeof(LENT));
   dl_iterate_phdr(phdr_cb, NULL);
-  { void* tmp[2]; backtrace(tmp, 2); }   // libgcc is loaded now, not inside an armed region
+  g_stack_hi = (uintptr_t) __builtin_frame_address(0) + (1u << 16);
   int initialised = 0;
   while (getline(&line, &cap, stdin) > 0)
   {
